@@ -5,9 +5,20 @@
  *        one case per (seed, index): module (corpus file, or "@synth" = seeded synthetic
  *        module built through the private headers), configuration (rate, format, voices,
  *        tempo factor), then <nframes> xmp_play_frame calls with random position-control
- *        calls and injected speed/tempo/flow events in between.
+ *        calls and injected speed/tempo/flow events in between; in two thirds of the cases some of
+ *        the frames are played through xmp_play_buffer (loop limits 0/1/2, buffer sizes from 1 byte
+ *        to several frames, going on after -XMP_END without restart; every frame played inside a
+ *        buffer call is observed through a --wrap hook on libxmp_mixer_softmixer) and the
+ *        xmp_play_buffer(NULL) reset entry is called now and then.
  *   c16_frames case <caseseed> <nframes> <virtdump%> <module|@synth>     (replay of one case)
  *   c16_frames tick <seed> <n>          random libxmp_mixer_get_ticksize / prepare inputs
+ *   c16_frames fxall <seed> <first cfg> <ncfg> <thorough 0|1>
+ *        effect sweep: per configuration (player mode, quirks, flow mode, flags, time factor; cfg >= 1000: the two
+ *        time factors where the tempo minimum of label fx_s3m_bpm leaves the byte range) every effect number x
+ *        parameter x lane is put into a row of a silent 4-channel module next to random set-up / partner effects
+ *        and the first tick of that row is played (D fxrow / E r; D tslide / E ts for the IT tempo slide tick)
+ *   every libxmp_process_fx call of the play/case modes is sampled through a --wrap hook (D fx / E x;
+ *   environment C16_FXPM = per mille of the calls with a flow-relevant effect, default 250)
  *
  * Output lines (the check script routes them by prefix):
  *   B <text>          case begins
@@ -524,6 +535,112 @@ static void put_double(double x)
 }
 
 /* ------------------------------------------------------------------ */
+/* every libxmp_process_fx call (effects.c), seen through --wrap        */
+/* ------------------------------------------------------------------ */
+/* The flow-relevant variables before and after the real call, for the Lean function Fx.processFx.
+ * read_event.c calls libxmp_process_fx across translation units, so the linker's --wrap catches every
+ * call: rows of real modules, injected events, delayed events. */
+#include "far_extras.h"
+static int g_fx_dump_pm;	/* per mille of the calls with a flow-relevant effect that are dumped (other effects: a twentieth of it) */
+static int g_fx_all;		/* dump every call (exhaustive mode) */
+static long g_fx_calls, g_fx_dumped, g_fx_flow_dumped;
+
+static int is_flow_fx(int t)
+{
+	switch (t) {
+	case FX_JUMP: case FX_BREAK: case FX_EXTENDED: case FX_SPEED: case FX_PATT_DELAY: case FX_S3M_SPEED:
+	case FX_S3M_BPM: case FX_IT_BPM: case FX_IT_ROWDELAY: case FX_IT_BREAK: case FX_GLOBALVOL: case FX_ICE_SPEED:
+	case FX_SPEED_CP: case FX_ULT_TEMPO: case FX_LINE_JUMP: case FX_FAR_TEMPO: case FX_FAR_F_TEMPO:
+		return 1;
+	}
+	return 0;
+}
+
+static void put_env(struct context_data *ctx)
+{
+	struct module_data *m = &ctx->m;
+	printf(" %u %d %d %d", (unsigned)m->quirk, ctx->p.flags, m->read_event_type, m->flow_mode);
+	put_double(m->time_factor);
+	printf(" %d %d %d", m->gvolbase, m->mod.chn, HAS_FAR_MODULE_EXTRAS(*m) ? 1 : 0);
+}
+
+static void put_flow(struct context_data *ctx, int nloops)
+{
+	struct player_data *p = &ctx->p;
+	struct flow_control *f = &p->flow;
+	int i;
+	printf(" %d %d %d %d %d %d %d %d %d %d %d %d %d %d %d %d |", p->speed, p->bpm, p->gvol, p->st26_speed, f->pbreak,
+	       f->jump, f->delay, f->jumpline, f->loop_dest, f->rowdelay, f->rowdelay_set, f->jump_in_pat, f->loop_param,
+	       f->loop_start, f->loop_count, f->loop_active_num);
+	for (i = 0; i < nloops; i++)
+		printf(" %d %d", f->loop[i].start, f->loop[i].count);
+}
+
+void __real_libxmp_process_fx(struct context_data *ctx, struct channel_data *xc, int chn, struct xmp_event *e, int fnum);
+void __wrap_libxmp_process_fx(struct context_data *ctx, struct channel_data *xc, int chn, struct xmp_event *e, int fnum)
+{
+	int fxt = fnum == 0 ? e->fxt : e->f2t, fxp = fnum == 0 ? e->fxp : e->f2p;
+	int flowfx = is_flow_fx(fxt), d = 0, nloops = 0;
+	int pre_hdr[4], pre_fl[16], pre_lp[2 * XMP_MAX_CHANNELS];
+	g_fx_calls++;
+	if (ctx->p.flow.loop != NULL && chn >= 0 && chn < ctx->p.virt.virt_channels) {
+		if (g_fx_all)
+			d = 1;
+		else if (g_fx_dump_pm > 0) {
+			/* separate random stream: does not perturb the case */
+			g_vd_state ^= g_vd_state << 13;
+			g_vd_state ^= g_vd_state >> 7;
+			g_vd_state ^= g_vd_state << 17;
+			d = (int)((g_vd_state >> 20) % 1000) < (flowfx ? g_fx_dump_pm : g_fx_dump_pm / 20);
+		}
+	}
+	if (d) {
+		/* the D line is printed after the call: virtual.c spies may print their own D/E pairs inside it */
+		nloops = ctx->m.mod.chn > chn + 1 ? ctx->m.mod.chn : chn + 1;
+		if (nloops > ctx->p.virt.virt_channels)
+			nloops = ctx->p.virt.virt_channels;
+		if (nloops > XMP_MAX_CHANNELS)
+			d = 0;
+	}
+	if (d) {
+		struct player_data *p = &ctx->p;
+		struct flow_control *f = &p->flow;
+		int i;
+		pre_hdr[0] = p->ord; pre_hdr[1] = p->row; pre_hdr[2] = chn; pre_hdr[3] = xc->vol.memory;
+		pre_fl[0] = p->speed; pre_fl[1] = p->bpm; pre_fl[2] = p->gvol; pre_fl[3] = p->st26_speed; pre_fl[4] = f->pbreak;
+		pre_fl[5] = f->jump; pre_fl[6] = f->delay; pre_fl[7] = f->jumpline; pre_fl[8] = f->loop_dest; pre_fl[9] = f->rowdelay;
+		pre_fl[10] = f->rowdelay_set; pre_fl[11] = f->jump_in_pat; pre_fl[12] = f->loop_param; pre_fl[13] = f->loop_start;
+		pre_fl[14] = f->loop_count; pre_fl[15] = f->loop_active_num;
+		for (i = 0; i < nloops; i++) {
+			pre_lp[2 * i] = f->loop[i].start;
+			pre_lp[2 * i + 1] = f->loop[i].count;
+		}
+	}
+	__real_libxmp_process_fx(ctx, xc, chn, e, fnum);
+	if (d) {
+		int i;
+		printf("D fx");
+		put_env(ctx);
+		printf(" | %d %d %d %d %d %d |", pre_hdr[0], pre_hdr[1], pre_hdr[2], pre_hdr[3], fxt, fxp);
+		for (i = 0; i < 16; i++)
+			printf(" %d", pre_fl[i]);
+		printf(" |");
+		for (i = 0; i < 2 * nloops; i++)
+			printf(" %d", pre_lp[i]);
+		printf("\n");
+		/* the ST3 effect memory is compared for the effects whose use of it is modelled */
+		printf("E x");
+		put_flow(ctx, nloops);
+		if (fxt == FX_S3M_SPEED)
+			printf(" | %d\n", xc->vol.memory);
+		else
+			printf(" | *\n");
+		g_fx_dumped++;
+		g_fx_flow_dumped += flowfx;
+	}
+}
+
+/* ------------------------------------------------------------------ */
 /* synthetic modules                                                   */
 /* ------------------------------------------------------------------ */
 static const int flow_fx[] = {
@@ -972,6 +1089,480 @@ static void on_alarm(int sig)
 	_exit(0);
 }
 
+
+/* ------------------------------------------------------------------ */
+/* frames played inside xmp_play_buffer                                */
+/* ------------------------------------------------------------------ */
+/* xmp_play_frame ends with a call of libxmp_mixer_softmixer (another TU: the linker's --wrap catches it).
+ * While a buffer call is running the hook below reports every frame exactly like the main loop does for a
+ * direct xmp_play_frame: kernel correspondence from the state before the frame (= the state at the entry
+ * of the buffer call, or after the previous hooked frame: nothing but xmp_play_frame may touch the player
+ * state in between), every clause of the oracle, the monitored ranges. */
+#define PB_MAXLC 96
+static struct {
+	int active;
+	xmp_context c;
+	struct context_data *ctx;
+	int rate, format, tf_called, frameno;
+	int *prev_loop;
+	const char *what;
+	int pre[NST];
+	int nframes, fails;
+	int lcs[PB_MAXLC];
+} g_pb;
+static long g_pb_calls, g_pb_frames, g_pb_end, g_pb_end_limit, g_pb_zero, g_pb_multi, g_pb_after_end, g_pb_reset;
+
+static void report_ok_frame(xmp_context c, struct context_data *ctx, const int *pre, const int *post, int frameno,
+			    int rate, int format, int tf_called, int *prev_loop, const char *what, int *fails)
+{
+	printf("D frame");
+	put_state(pre);
+	printf("\n");
+	printf("E k ok %d %d %d %d %d %d %d %d %d %d %d %d %d\n", post[0], post[1], post[2], post[3], post[16],
+	       post[17], post[8], post[9], g_mid_taken, g_mid_taken ? g_mid[0] : 0, g_mid_taken ? g_mid[1] : 0,
+	       g_mid_taken ? g_mid[2] : 0, g_mid_taken ? g_mid[3] : 0);
+	g_frames++;
+	if (g_mid_taken)
+		g_repos++;
+	else if (post[0] != pre[0] || (post[3] == 0 && post[2] <= pre[2] && pre[3] >= 0))
+		g_ordadv++;
+	else if (post[3] == 0)
+		g_rowadv++;
+	*fails += oracle(c, ctx, frameno, rate, format, tf_called, prev_loop, what);
+	monitor_effrange(post, frameno);
+	if (ctx->p.frame_time != ctx->m.time_factor * ctx->m.rrate / ctx->p.bpm && first_time("A frametime")) {
+		printf("A frametime frame %d: p->frame_time %.9g is not time_factor*rrate/bpm = %.9g (bpm %d, time factor %g)\n",
+		       frameno, ctx->p.frame_time, ctx->m.time_factor * ctx->m.rrate / ctx->p.bpm, ctx->p.bpm, ctx->m.time_factor);
+		g_assume++;
+	}
+}
+
+void __real_libxmp_mixer_softmixer(struct context_data *ctx);
+void __wrap_libxmp_mixer_softmixer(struct context_data *ctx)
+{
+	int post[NST];
+	__real_libxmp_mixer_softmixer(ctx);
+	if (!g_pb.active || ctx != g_pb.ctx)
+		return;
+	get_state(ctx, post);
+	report_ok_frame(g_pb.c, ctx, g_pb.pre, post, g_pb.frameno, g_pb.rate, g_pb.format, g_pb.tf_called, g_pb.prev_loop,
+			g_pb.what, &g_pb.fails);
+	if (g_pb.nframes < PB_MAXLC)
+		g_pb.lcs[g_pb.nframes] = post[8];
+	g_pb.nframes++;
+	g_pb_frames++;
+	memcpy(g_pb.pre, post, sizeof(post));
+	g_mid_taken = 0;
+}
+
+/* one xmp_play_buffer(out, size, loop) call; returns its return value, *nplayed = frames played inside */
+static int do_buffer(xmp_context c, struct context_data *ctx, int frameno, int rate, int format, int tf_called,
+		     int *prev_loop, const char *what, int pb_loop, int *fails, int *nplayed)
+{
+	static char *buf;
+	static const int bufcap = 6 * XMP_MAX_FRAMESIZE;
+	struct xmp_frame_info fi;
+	int bs, fb, size, loop, ret, post[NST], k, prev = *prev_loop;
+
+	if (buf == NULL)
+		buf = (char *)malloc(bufcap);
+	memset(&fi, 0, sizeof(fi));
+	xmp_get_frame_info(c, &fi);
+	fb = ((format & XMP_FORMAT_MONO) ? 1 : 2) * ((format & XMP_FORMAT_8BIT) ? 1 : 2);
+	bs = fi.buffer_size > 0 ? fi.buffer_size : 64 * fb;
+	loop = vrng_chance(75) ? pb_loop : (int)vrng_below(3);
+	switch (vrng_below(10)) {
+	case 0: size = 1; break;
+	case 1: size = fb * vrng_range(1, 9); break;
+	case 2: size = bs - 1; break;
+	case 3: size = bs; break;
+	case 4: size = bs + 1; break;
+	case 5: size = 2 * bs + 3; break;
+	case 6: size = vrng_range(1, 5 * bs); break;
+	case 7: size = vrng_range(2, 12) * bs; break;
+	case 8: size = XMP_MAX_FRAMESIZE < 16 * bs ? XMP_MAX_FRAMESIZE : 16 * bs; break;
+	default: size = vrng_range(1, bs); break;
+	}
+	if (size < 1)
+		size = 1;
+	if (size > bufcap)
+		size = bufcap;
+
+	get_state(ctx, g_pb.pre);
+	g_pb.c = c; g_pb.ctx = ctx; g_pb.rate = rate; g_pb.format = format; g_pb.tf_called = tf_called;
+	g_pb.frameno = frameno; g_pb.prev_loop = prev_loop; g_pb.what = what; g_pb.nframes = 0; g_pb.fails = 0;
+	g_pb.active = 1;
+	g_in_frame = 1;
+	g_mid_taken = 0;
+	g_wd_frame = frameno;
+	signal(SIGALRM, on_alarm);
+	alarm(20);
+	ret = xmp_play_buffer(c, buf, size, loop);
+	alarm(0);
+	g_in_frame = 0;
+	g_pb.active = 0;
+	get_state(ctx, post);
+	g_pb_calls++;
+	*fails += g_pb.fails;
+	*nplayed = g_pb.nframes;
+	if (g_pb.nframes > 1)
+		g_pb_multi++;
+	if (g_pb.nframes == 0)
+		g_pb_zero++;
+
+	/* stop rule (Seq.framesUntilLimit): no frame is played after one that reached the loop limit */
+	if (g_pb.nframes <= PB_MAXLC) {
+		printf("D pbuf %d", loop);
+		for (k = 0; k < g_pb.nframes; k++)
+			printf(" %d", g_pb.lcs[k]);
+		printf("\nE b %d\n", g_pb.nframes);
+	}
+	/* Seq.playBuffer: the call leaves the player in the state after its last frame (or untouched) */
+	for (k = 0; k < NST; k++) {
+		if (post[k] != g_pb.pre[k] && first_time("A pbufstate")) {
+			printf("A pbufstate frame %d: xmp_play_buffer(size %d, loop %d) = %d changed player field #%d from %d to %d outside xmp_play_frame\n",
+			       frameno, size, loop, ret, k, g_pb.pre[k], post[k]);
+			g_assume++;
+		}
+	}
+	/* "between position-control calls the loop counter never decreases": also across the return of the buffer
+	 * call, whatever it returns (the per-frame clauses were evaluated inside the call; here once more on the
+	 * state the call leaves behind) */
+	if (g_pb.nframes > 0)
+		*fails += oracle(c, ctx, frameno, rate, format, tf_called, prev_loop, what);
+	else {
+		memset(&fi, 0, sizeof(fi));
+		xmp_get_frame_info(c, &fi);
+		if (prev >= 0 && fi.loop_count < prev) {
+			(*fails)++;
+			if (first_time("loopcount:decrease"))
+				printf("O loopcount:decrease frame %d (%s): loop_count %d after %d across xmp_play_buffer(size %d, loop %d) = %d with no position-control call in between\n",
+				       frameno, what, fi.loop_count, prev, size, loop, ret);
+		}
+		if (prev >= 0)
+			*prev_loop = fi.loop_count;
+	}
+	if (ret == -XMP_END) {
+		g_pb_end++;
+		if (g_pb.nframes > 0)
+			g_pb_end_limit++;
+	} else if (ret != 0) {
+		printf("O buffer:error frame %d: xmp_play_buffer returned %d\n", frameno, ret);
+		(*fails)++;
+	}
+	return ret;
+}
+
+/* ------------------------------------------------------------------ */
+/* fxall: every effect number with every parameter in a row of a module */
+/* ------------------------------------------------------------------ */
+/* A silent 4-channel module (3 orders, patterns of 8 and 4 rows) under a configuration (player mode,
+ * quirks, flow mode, time factor, flags).  One experiment: a set-up event in row 0 and the events under
+ * test in row r of the pattern at order o; xmp_set_position(o) + xmp_play_frame plays row 0 (reposition),
+ * the flow record S0 is dumped, xmp_set_row(r) + xmp_play_frame plays the first tick of row r, the flow
+ * record S1 is dumped.  The driver computes S1 from S0 with Fx.readRow + Seq.st26Step. */
+#define FXCH 4
+struct fx_cfg {
+	int rmode, quirk, flow, flags, gvolbase;
+	double tf;
+};
+
+static int create_fx_module(struct context_data *ctx, const struct fx_cfg *cf)
+{
+	struct module_data *m = &ctx->m;
+	struct xmp_module *mod = &m->mod;
+	int ret;
+	libxmp_load_prologue(ctx);
+	mod->chn = FXCH;
+	mod->pat = 2;
+	mod->ins = mod->smp = 1;
+	mod->trk = mod->pat * mod->chn;
+	mod->len = 3;
+	mod->xxo[0] = 0; mod->xxo[1] = 1; mod->xxo[2] = 0;
+	mod->rst = 0;
+	mod->spd = 6;
+	mod->bpm = 125;
+	if (libxmp_init_pattern(mod) < 0)
+		return -1;
+	if (libxmp_alloc_pattern_tracks(mod, 0, 8) < 0 || libxmp_alloc_pattern_tracks(mod, 1, 4) < 0)
+		return -1;
+	if (libxmp_init_instrument(m) < 0)
+		return -1;
+	mod->xxi[0].nsm = 1;
+	if (libxmp_alloc_subinstrument(mod, 0, 1) < 0)
+		return -1;
+	mod->xxi[0].sub[0].pan = 0x80;
+	mod->xxi[0].sub[0].vol = 0x40;
+	mod->xxi[0].sub[0].sid = 0;
+	mod->xxs[0].len = 64;
+	mod->xxs[0].lps = 0;
+	mod->xxs[0].lpe = 64;
+	mod->xxs[0].data = (unsigned char *)calloc(1, 64 + 16);
+	if (mod->xxs[0].data == NULL)
+		return -1;
+	mod->xxs[0].data += 4;
+	m->quirk |= cf->quirk;
+	m->read_event_type = cf->rmode;
+	m->flow_mode = cf->flow;
+	m->time_factor = cf->tf;
+	m->gvolbase = cf->gvolbase;
+	libxmp_load_epilogue(ctx);
+	ret = libxmp_prepare_scan(ctx);
+	if (ret >= 0)
+		ret = libxmp_scan_sequences(ctx);
+	ctx->state = XMP_STATE_LOADED;
+	return ret;
+}
+
+static const int setup_fx[] = {
+	FX_JUMP, FX_BREAK, FX_IT_BREAK, FX_EXTENDED, FX_EXTENDED, FX_EXTENDED, FX_PATT_DELAY, FX_IT_ROWDELAY, FX_SPEED,
+	FX_S3M_SPEED, FX_S3M_BPM, FX_IT_BPM, FX_ICE_SPEED, FX_LINE_JUMP, FX_SPEED_CP, FX_ULT_TEMPO, FX_GLOBALVOL
+};
+
+/* a flow effect without note delay (a delayed event would fire inside a later frame) */
+static void gen_setup_fx(uint8 *t, uint8 *pr)
+{
+	int x = setup_fx[vrng_below((int)(sizeof(setup_fx) / sizeof(setup_fx[0])))];
+	int v = vrng_chance(30) ? (int)vrng_below(4) : (int)vrng_below(256);
+	if (x == FX_EXTENDED)
+		v = ((vrng_chance(70) ? EX_PATTERN_LOOP : EX_PATT_DELAY) << 4) | vrng_below(vrng_chance(50) ? 3 : 16);
+	*t = (uint8)x;
+	*pr = (uint8)v;
+}
+
+static long g_fxrow_n, g_fxrow_flow, g_fxrow_partner, g_tslide_n;
+static int g_fx_extreme_tf;
+
+static void put_chan_events(struct context_data *ctx, int pat, int row, const int *vm)
+{
+	struct xmp_module *mod = &ctx->m.mod;
+	int k;
+	for (k = 0; k < FXCH; k++) {
+		struct xmp_event *e = &mod->xxt[mod->xxp[pat]->index[k]]->event[row];
+		printf(" %d %d %d %d %d", e->fxt, e->fxp, e->f2t, e->f2p, vm[k]);
+	}
+}
+
+static int row_has_gvolslide(struct context_data *ctx, int pat, int row)
+{
+	struct xmp_module *mod = &ctx->m.mod;
+	int k;
+	for (k = 0; k < FXCH; k++) {
+		struct xmp_event *e = &mod->xxt[mod->xxp[pat]->index[k]]->event[row];
+		if (e->fxt == FX_GVOL_SLIDE || e->f2t == FX_GVOL_SLIDE)
+			return 1;
+	}
+	return 0;
+}
+
+static void put_flow_w(struct context_data *ctx, int nloops, int gvol_wild)
+{
+	struct player_data *p = &ctx->p;
+	struct flow_control *f = &p->flow;
+	int i;
+	printf(" %d %d", p->speed, p->bpm);
+	if (gvol_wild)
+		printf(" *");
+	else
+		printf(" %d", p->gvol);
+	printf(" %d %d %d %d %d %d %d %d %d %d %d %d %d |", p->st26_speed, f->pbreak, f->jump, f->delay, f->jumpline, f->loop_dest,
+	       f->rowdelay, f->rowdelay_set, f->jump_in_pat, f->loop_param, f->loop_start, f->loop_count, f->loop_active_num);
+	for (i = 0; i < nloops; i++)
+		printf(" %d %d", f->loop[i].start, f->loop[i].count);
+}
+
+/* one experiment; the event under test (fxt, fxp) goes to lane `lane` of channel `tch` in row r */
+static int fx_experiment(xmp_context c, struct context_data *ctx, int fxt, int fxp, int lane)
+{
+	struct xmp_module *mod = &ctx->m.mod;
+	int o = vrng_chance(60) ? 0 : 1, pat = mod->xxo[o], rows = mod->xxp[pat]->rows;
+	int r = vrng_range(1, rows - 1), tch = vrng_below(FXCH), k, vm[FXCH], gw, pre_bpm;
+	struct xmp_event *e;
+
+	for (k = 0; k < mod->trk; k++)
+		memset(mod->xxt[k]->event, 0, sizeof(struct xmp_event) * mod->xxt[k]->rows);
+	/* xmp_set_position onto the order being played does not reposition: move away first */
+	if (o != 0 && ctx->p.ord == o) {
+		xmp_set_position(c, 0);
+		if (xmp_play_frame(c) != 0)
+			return -1;
+	}
+	/* set-up row: usually one flow effect somewhere, sometimes two */
+	if (vrng_chance(75)) {
+		e = &mod->xxt[mod->xxp[pat]->index[vrng_below(FXCH)]]->event[0];
+		gen_setup_fx(&e->fxt, &e->fxp);
+		if (vrng_chance(25)) {
+			e = &mod->xxt[mod->xxp[pat]->index[vrng_below(FXCH)]]->event[0];
+			gen_setup_fx(&e->f2t, &e->f2p);
+		}
+	}
+	/* the event under test */
+	e = &mod->xxt[mod->xxp[pat]->index[tch]]->event[r];
+	if (lane == 0) {
+		e->fxt = (uint8)fxt;
+		e->fxp = (uint8)fxp;
+	} else {
+		e->f2t = (uint8)fxt;
+		e->f2p = (uint8)fxp;
+	}
+	/* partner: a flow effect on another channel of the same row, or in the lane of the same event that the
+	 * reader handles FIRST (so that the ST3 effect memory the second one meets is the modelled one) */
+	if (vrng_chance(55)) {
+		int first_lane = ctx->m.read_event_type == READ_EVENT_IT ? 0 : 1;
+		uint8 pt, pp;
+		gen_setup_fx(&pt, &pp);
+		if (vrng_chance(25) && lane != first_lane) {
+			if (first_lane == 0) { e->fxt = pt; e->fxp = pp; } else { e->f2t = pt; e->f2p = pp; }
+		} else {
+			int och = (tch + 1 + (int)vrng_below(FXCH - 1)) % FXCH;
+			struct xmp_event *e2 = &mod->xxt[mod->xxp[pat]->index[och]]->event[r];
+			e2->fxt = pt;
+			e2->fxp = pp;
+		}
+		g_fxrow_partner++;
+	}
+
+	if ((k = xmp_set_position(c, o)) < -1) {	/* -1 = "restart" when o is 0 */
+		printf("A fxall xmp_set_position(%d) = %d\n", o, k);
+		return -1;
+	}
+	if ((k = xmp_play_frame(c)) != 0) {
+		printf("A fxall set-up frame: xmp_play_frame = %d (ord %d pos %d len %d)\n", k, ctx->p.ord, ctx->p.pos, mod->len);
+		return -1;
+	}
+	for (k = 0; k < FXCH; k++)
+		vm[k] = ctx->p.xc_data[k].vol.memory;
+	gw = row_has_gvolslide(ctx, pat, 0) || row_has_gvolslide(ctx, pat, r);
+	pre_bpm = ctx->p.bpm;
+	printf("D fxrow");
+	put_env(ctx);
+	printf(" | %d %d 0 |", o, r);
+	put_flow_w(ctx, FXCH, 0);
+	printf(" |");
+	put_chan_events(ctx, pat, r, vm);
+	printf("\n");
+	if ((k = xmp_set_row(c, r)) < 0) {
+		printf("E r protocol-error\nA fxall xmp_set_row(%d) = %d (pos %d ord %d)\n", r, k, ctx->p.pos, ctx->p.ord);
+		return -1;
+	}
+	if (ctx->p.ord != o || (k = xmp_play_frame(c)) != 0 || ctx->p.frame != 0 || ctx->p.row != r) {
+		printf("E r protocol-error\nA fxall row frame: xmp_play_frame = %d, ord %d (want %d) row %d (want %d) frame %d\n", k, ctx->p.ord, o,
+		       ctx->p.row, r, ctx->p.frame);
+		return -1;
+	}
+	printf("E r");
+	put_flow_w(ctx, FXCH, gw);
+	printf("\n");
+	{
+		/* the speed / tempo clauses of the property on what this frame reports */
+		struct xmp_frame_info fi;
+		memset(&fi, 0, sizeof(fi));
+		xmp_get_frame_info(c, &fi);
+		if ((fi.bpm <= 0 || fi.frame_time <= 0) && pre_bpm > 0) {
+			const char *sig = g_fx_extreme_tf ? "bpm:min_bpm_clamp" : "bpm:nonpositive";
+			if (first_time(sig)) {
+				printf("O %s time factor %g, tempo %d before the row, row events (fxt fxp f2t f2p vol.memory per channel):", sig,
+				       ctx->m.time_factor, pre_bpm);
+				put_chan_events(ctx, pat, r, vm);
+				printf(": reported bpm %d, frame_time %d us\n", fi.bpm, fi.frame_time);
+			}
+		}
+		if ((fi.speed < 1 || fi.speed > 255) && first_time("speed:range"))
+			printf("O speed:range effect %#x parameter %#x (lane %d): reported speed %d\n", fxt, fxp, lane, fi.speed);
+	}
+	g_fxrow_n++;
+	g_fxrow_flow += is_flow_fx(fxt);
+	/* IT tempo slide (T0x / T1x): the next tick of the same row adds each channel's slide and clamps
+	 * (Fx.tempoSlideStep); only when no other writer of the tempo can run in that tick */
+	if (fxt == FX_IT_BPM && fxp < 0x20 && ctx->p.speed >= 2 && ctx->p.flow.delay == 0) {
+		int pending = 0, n = 0, sl[FXCH], bpm0 = ctx->p.bpm;
+		for (k = 0; k < ctx->p.virt.virt_channels; k++)
+			if (ctx->p.xc_data[k].delay > 0)
+				pending = 1;
+		for (k = 0; k < FXCH; k++)
+			if (ctx->p.xc_data[k].flags & TEMPO_SLIDE)
+				sl[n++] = ctx->p.xc_data[k].tempo.slide;
+		if (!pending && n > 0 && xmp_play_frame(c) == 0 && ctx->p.frame == 1) {
+			printf("D tslide %d", bpm0);
+			for (k = 0; k < n; k++)
+				printf(" %d", sl[k]);
+			printf("\nE ts %d\n", ctx->p.bpm);
+			g_tslide_n++;
+		}
+	}
+	return 0;
+}
+
+static int run_fxall(uint64_t seed, int cfgidx, int thorough)
+{
+	static const int rmodes[] = { READ_EVENT_MOD, READ_EVENT_FT2, READ_EVENT_ST3, READ_EVENT_IT, READ_EVENT_MED };
+	static const int flows[] = { FLOW_MODE_GENERIC, FLOW_MODE_ST3_321, FLOW_MODE_ST3_301, FLOW_MODE_IT_100, FLOW_MODE_IT_210,
+		FLOW_MODE_MPT_116, FLOW_MODE_ORPHEUS, FLOW_MODE_LIQUID, FLOW_MODE_LIQUID_COMPAT, FLOW_MODE_OCTALYSER,
+		FLOW_MODE_DTM_203, FLOW_MODE_DTM_19 };
+	static const double tfs[] = { DEFAULT_TIME_FACTOR, DEFAULT_TIME_FACTOR, MED_TIME_FACTOR, 40.0, 2.5 };
+	static const int sparse[] = { 0x00, 0x01, 0x0f, 0x10, 0x1f, 0x20, 0x2f, 0x30, 0x60, 0x7f, 0x80, 0xd1, 0xe3, 0xff };
+	struct fx_cfg cf;
+	xmp_context c;
+	struct context_data *ctx;
+	int fxt, lane, k, bad = 0;
+
+	vrng_seed(seed * 2654435761ULL + (uint64_t)cfgidx * 97);
+	cf.rmode = rmodes[cfgidx % 5];	/* consecutive configurations cover every player mode */
+	cf.flow = flows[vrng_below(12)];
+	cf.quirk = (vrng_chance(40) ? QUIRK_ST3BUGS : 0) | (vrng_chance(30) ? QUIRK_NOBPM : 0) |
+		   (vrng_chance(40) ? QUIRK_FT2BUGS : 0) | (vrng_chance(20) ? QUIRK_FINEFX : 0);
+	cf.flags = vrng_chance(20) ? XMP_FLAGS_VBLANK : 0;
+	cf.gvolbase = vrng_chance(70) ? 0x40 : 0x80;
+	cf.tf = tfs[vrng_below(5)];
+	/* configurations 1000+: time factors at which (int)(0.5 + time_factor * XMP_MIN_BPM / 10) leaves the byte range
+	 * (xmp_set_tempo_factor(12.8) -> 256, (0.02) -> 0); flow effects only */
+	g_fx_extreme_tf = cfgidx >= 1000;
+	if (g_fx_extreme_tf)
+		cf.tf = (cfgidx & 1) ? 0.2 : 128.0;
+	g_nseen = 0;
+	c = xmp_create_context();
+	ctx = (struct context_data *)c;
+	if (create_fx_module(ctx, &cf) < 0) {
+		printf("N fx_unloadable 1\n");
+		xmp_release_module(c);
+		xmp_free_context(c);
+		return -1;
+	}
+	if (cf.flags)
+		xmp_set_player(c, XMP_PLAYER_FLAGS, cf.flags);
+	printf("B fxall %llu cfg=%d rmode=%d quirk=%#x flow=%#x flags=%d tf=%g gvolbase=%d\n", (unsigned long long)seed, cfgidx,
+	       cf.rmode, cf.quirk, cf.flow, cf.flags, cf.tf, cf.gvolbase);
+	fprintf(stderr, "CASE fxall %llu cfg=%d\n", (unsigned long long)seed, cfgidx);
+	if (xmp_start_player(c, 8000, XMP_FORMAT_MONO) < 0) {
+		printf("N start_failed 1\nZ\n");
+		xmp_release_module(c);
+		xmp_free_context(c);
+		return -1;
+	}
+	for (lane = 0; lane < 2 && !bad; lane++) {
+		for (fxt = 0; fxt < 256 && !bad; fxt++) {
+			if (g_fx_extreme_tf && !is_flow_fx(fxt))
+				continue;
+			if (thorough || is_flow_fx(fxt)) {
+				for (k = 0; k < 256 && !bad; k++)
+					bad = fx_experiment(c, ctx, fxt, k, lane) < 0;
+			} else {
+				for (k = 0; k < (int)(sizeof(sparse) / sizeof(sparse[0])) && !bad; k++)
+					bad = fx_experiment(c, ctx, fxt, sparse[k], lane) < 0;
+				for (k = 0; k < 2 && !bad; k++)
+					bad = fx_experiment(c, ctx, fxt, (int)vrng_below(256), lane) < 0;
+			}
+		}
+	}
+	if (bad)
+		printf("A fxall experiment protocol failed (set_position / set_row / play_frame refused)\n");
+	printf("Z\n");
+	xmp_end_player(c);
+	xmp_release_module(c);
+	xmp_free_context(c);
+	return 0;
+}
+
 static int run_case(uint64_t cs, int nframes, const char *modname)
 {
 	xmp_context c;
@@ -980,6 +1571,7 @@ static int run_case(uint64_t cs, int nframes, const char *modname)
 	static const double tfs[] = { 0.1, 0.25, 0.5, 1.0, 1.0, 2.0, 3.9, 4.0, 7.5, 10.0, 10.0, 25.0, 100.0 };
 	int rate, format, voices, i, ret, fails = 0, prev_loop = -1, stopped = 0, ends = 0;
 	int tf_mode, tf_called = 0, speed0, pending_delay = 0, inject_pending = 0;
+	int pb_mode, pb_loop, pb_ended = 0;
 	int synth = !strcmp(modname, "@synth");
 	char desc[256] = "";
 	int pre[NST], post[NST];
@@ -1006,11 +1598,13 @@ static int run_case(uint64_t cs, int nframes, const char *modname)
 	if ((ctx->m.quirk & QUIRK_VIRTUAL) && vrng_chance(45))
 		voices = vrng_range(1, 6);	/* few voices + NNA: voice stealing and failed allocations */
 	tf_mode = vrng_below(10);	/* 0,1: set a tempo factor right after start; 2: also mid-play */
+	pb_mode = vrng_below(3);	/* 0: xmp_play_frame only; 1: now and then a xmp_play_buffer call; 2: half of the steps */
+	pb_loop = vrng_below(3);	/* loop limit of most buffer calls of this case */
 	if (voices != 128)
 		xmp_set_player(c, XMP_PLAYER_VOICES, voices);
 	speed0 = ctx->p.speed;
-	printf("B case %llu %s rate=%d fmt=%d voices=%d tfmode=%d %s\n", (unsigned long long)cs, modname, rate, format,
-	       voices, tf_mode, desc);
+	printf("B case %llu %s rate=%d fmt=%d voices=%d tfmode=%d pb=%d/%d %s\n", (unsigned long long)cs, modname, rate, format,
+	       voices, tf_mode, pb_mode, pb_loop, desc);
 	/* if the library aborts inside this case the buffered stdout may be lost: name the case on stderr */
 	fprintf(stderr, "CASE case %llu %s rate=%d fmt=%d voices=%d tfmode=%d %s\n", (unsigned long long)cs, modname, rate,
 		format, voices, tf_mode, desc);
@@ -1085,6 +1679,42 @@ static int run_case(uint64_t cs, int nframes, const char *modname)
 				if (ctx->p.xc_data[k].delay > 0)
 					pending_delay = 1;
 		}
+		/* the xmp_play_buffer(NULL) reset entry: zeroes the loop counter (a reset, like xmp_restart_module) */
+		if (pb_mode && vrng_chance(2)) {
+			get_state(ctx, pre);
+			xmp_play_buffer(c, NULL, 0, 0);
+			get_state(ctx, post);
+			printf("D ctl 7 0");
+			put_state(pre);
+			printf("\nE c");
+			put_state(post);
+			printf("\n");
+			g_pb_reset++;
+			prev_loop = -1;
+		}
+		/* this step through xmp_play_buffer instead of xmp_play_frame */
+		if (pb_mode && vrng_chance(pb_mode == 1 ? 12 : 50)) {
+			int played = 0;
+			if (pb_ended)
+				g_pb_after_end++;
+			ret = do_buffer(c, ctx, i, rate, format, tf_called, &prev_loop, synth ? desc : modname, pb_loop, &fails, &played);
+			if (played > 0) {
+				inject_pending = 0;
+				ends = 0;
+			}
+			if (ret == -XMP_END) {
+				pb_ended = 1;
+				if (played == 0) {
+					g_ends++;
+					if (++ends > 6 && !stopped)
+						break;
+					if (ends > 40)
+						break;
+				}
+			} else if (ret != 0)
+				break;
+			continue;
+		}
 		get_state(ctx, pre);
 		g_in_frame = 1;
 		g_mid_taken = 0;
@@ -1096,27 +1726,10 @@ static int run_case(uint64_t cs, int nframes, const char *modname)
 		g_in_frame = 0;
 		get_state(ctx, post);
 
-		printf("D frame");
-		put_state(pre);
-		printf("\n");
 		if (ret == 0) {
-			printf("E k ok %d %d %d %d %d %d %d %d %d %d %d %d %d\n", post[0], post[1], post[2], post[3], post[16],
-			       post[17], post[8], post[9], g_mid_taken, g_mid_taken ? g_mid[0] : 0, g_mid_taken ? g_mid[1] : 0,
-			       g_mid_taken ? g_mid[2] : 0, g_mid_taken ? g_mid[3] : 0);
-			g_frames++;
-			if (g_mid_taken)
-				g_repos++;
-			else if (post[0] != pre[0] || (post[3] == 0 && post[2] <= pre[2] && pre[3] >= 0))
-				g_ordadv++;
-			else if (post[3] == 0)
-				g_rowadv++;
-			fails += oracle(c, ctx, i, rate, format, tf_called, &prev_loop, synth ? desc : modname);
-			monitor_effrange(post, i);
-			if (ctx->p.frame_time != ctx->m.time_factor * ctx->m.rrate / ctx->p.bpm && first_time("A frametime")) {
-				printf("A frametime frame %d: p->frame_time %.9g is not time_factor*rrate/bpm = %.9g (bpm %d, time factor %g)\n",
-				       i, ctx->p.frame_time, ctx->m.time_factor * ctx->m.rrate / ctx->p.bpm, ctx->p.bpm, ctx->m.time_factor);
-				g_assume++;
-			}
+			if (pb_ended)
+				g_pb_after_end++;
+			report_ok_frame(c, ctx, pre, post, i, rate, format, tf_called, &prev_loop, synth ? desc : modname, &fails);
 			/* ST2.6 step: speed must be the byte selected by the toggled state */
 			if (post[3] == 0 && post[7] != 0 && !inject_pending && !g_mid_taken && !pending_delay) {
 				printf("D st26 %d\nE t %d %d\n", post[7] ^ 0x10000, post[4], post[7]);
@@ -1125,7 +1738,9 @@ static int run_case(uint64_t cs, int nframes, const char *modname)
 			inject_pending = 0;	/* inject_event consumed every pending event */
 			ends = 0;
 		} else if (ret == -XMP_END) {
-			printf("E k fin\n");
+			printf("D frame");
+			put_state(pre);
+			printf("\nE k fin\n");
 			g_ends++;
 			if (memcmp(pre, post, sizeof(pre)) != 0)
 				printf("A endstate frame %d: xmp_play_frame returned -XMP_END but changed the player state\n", i);
@@ -1134,7 +1749,9 @@ static int run_case(uint64_t cs, int nframes, const char *modname)
 			if (ends > 40)
 				break;
 		} else {
-			printf("E k err %d\n", ret);
+			printf("D frame");
+			put_state(pre);
+			printf("\nE k err %d\n", ret);
 			printf("O frame:error frame %d: xmp_play_frame returned %d\n", i, ret);
 			fails++;
 			break;
@@ -1164,15 +1781,32 @@ static void print_stats(void)
 {
 	printf("N frames %ld\nN ends %ld\nN ctl %ld\nN inject %ld\nN repos %ld\nN rowadv %ld\nN ordadv %ld\nN loopinc %ld\n"
 	       "N tfcalls %ld\nN capped %ld\nN minclamp %ld\nN st26 %ld\nN assume %ld\nN vops %ld\nN vdump %ld\nN reloc %ld\nN vfail %ld\nN steal %ld\n"
-	       "N ordwf_seq_rst %ld\nN ordwf_seq_entry %ld\nN ordwf_seq_reach %ld\nN ordwf_seq_fail %ld\nN tf_accepted %ld\nN tf_refused %ld\nN vfieldops %ld\nN vfielddump %ld\n",
+	       "N ordwf_seq_rst %ld\nN ordwf_seq_entry %ld\nN ordwf_seq_reach %ld\nN ordwf_seq_fail %ld\nN tf_accepted %ld\nN tf_refused %ld\nN vfieldops %ld\nN vfielddump %ld\n"
+	       "N fx_calls %ld\nN fx_dumped %ld\nN fx_dumped_flowfx %ld\n"
+	       "N pbuf_calls %ld\nN pbuf_frames %ld\nN pbuf_end %ld\nN pbuf_end_looplimit %ld\nN pbuf_noframe %ld\nN pbuf_multiframe %ld\nN pbuf_steps_after_end %ld\nN pbuf_reset %ld\n",
 	       g_frames, g_ends, g_ctl, g_inject, g_repos, g_rowadv, g_ordadv, g_loopinc, g_tfcalls, g_capped, g_minclamp,
 	       g_st26, g_assume, g_stat_vops, g_stat_vdump, g_stat_reloc, g_stat_vfail, g_stat_steal, g_ow_rst, g_ow_entry,
-	       g_ow_reach, g_ow_fail, g_tf_acc, g_tf_ref, g_stat_fops, g_stat_fdump);
+	       g_ow_reach, g_ow_fail, g_tf_acc, g_tf_ref, g_stat_fops, g_stat_fdump,
+	       g_fx_calls, g_fx_dumped, g_fx_flow_dumped,
+	       g_pb_calls, g_pb_frames, g_pb_end, g_pb_end_limit, g_pb_zero, g_pb_multi, g_pb_after_end, g_pb_reset);
 }
 
 int main(int argc, char **argv)
 {
 	setvbuf(stdout, NULL, _IOFBF, 1 << 20);
+	g_fx_dump_pm = getenv("C16_FXPM") ? atoi(getenv("C16_FXPM")) : 250;
+	if (argc >= 6 && !strcmp(argv[1], "fxall")) {
+		/* fxall <seed> <first cfg> <ncfg> <thorough 0/1> */
+		int i0 = atoi(argv[3]), n = atoi(argv[4]), i;
+		g_fx_dump_pm = 0;
+		for (i = i0; i < i0 + n; i++) {
+			run_fxall(strtoull(argv[2], NULL, 10), i, atoi(argv[5]));
+			fflush(stdout);
+		}
+		printf("N fxrow %ld\nN fxrow_flowfx %ld\nN fxrow_partner %ld\nN fx_calls %ld\nN tslide %ld\n", g_fxrow_n, g_fxrow_flow, g_fxrow_partner,
+		       g_fx_calls, g_tslide_n);
+		return 0;
+	}
 	if (argc >= 6 && !strcmp(argv[1], "case")) {
 		int r;
 		g_virt_dump_pct = atoi(argv[4]);
